@@ -24,10 +24,19 @@ func (opt Option) AsIR(schemas ast.Schemas, builders ast.Builders, root ast.Buil
 		assignments = append(assignments, irAssignment)
 	}
 
+	// copies: the same rule can be applied to several builders
+	args := make([]ast.Argument, 0, len(opt.Arguments))
+	for _, arg := range opt.Arguments {
+		args = append(args, arg.DeepCopy())
+	}
+
+	var comments []string
+	comments = append(comments, opt.Comments...)
+
 	return ast.Option{
 		Name:        opt.Name,
-		Comments:    opt.Comments,
-		Args:        opt.Arguments,
+		Comments:    comments,
+		Args:        args,
 		Assignments: assignments,
 	}, nil
 }
@@ -64,7 +73,10 @@ type AssignmentValue struct {
 
 func (value AssignmentValue) AsIR(schemas ast.Schemas, assignmentPath ast.Path) (ast.AssignmentValue, error) {
 	if value.Argument != nil {
-		return ast.AssignmentValue{Argument: value.Argument}, nil
+		// a copy: the same rule can be applied to several options/builders
+		arg := value.Argument.DeepCopy()
+
+		return ast.AssignmentValue{Argument: &arg}, nil
 	}
 	if value.Constant != nil {
 		return ast.AssignmentValue{Constant: value.Constant}, nil
